@@ -1,6 +1,7 @@
 """C18 — worker insights account for every task.
 Theorems: Props/C18.lean (ratios, top-5, every successful task counted once).
-Correspondence: real WorkerInsights.get_insights() on synthetic arrays vs Mpire.Progress.top5/ratios; whole calls under DetSim
+Correspondence: real WorkerInsights.get_insights() on synthetic arrays vs Mpire.Progress.top5/ratios; the real bookkeeping
+objects as an operation-sequence machine vs Mpire.Insights.run; whole calls under DetSim
 with insights enabled (counts vs user-function log, restarts, keep-alive accumulation)."""
 import random
 from fractions import Fraction
@@ -8,7 +9,7 @@ from fractions import Fraction
 from harness import gen
 from harness.common import Driver
 from harness.detcheck import run_scenarios
-from harness.pure import small
+from harness.pure import insacc, small
 
 
 def ins_scenarios(rng, n):
@@ -120,6 +121,27 @@ def run(chk):
                 chk.mismatch('ratios', {'line': line}, i, [float(x) for x in fr])
             if any(x < 0 or x > 1 for x in i) or sum(i) > 1 + 1e-9:
                 chk.violation('ratios_in_unit_interval', {'parts': r[2]}, i, 'each ratio in [0,1], sum <= 1', input_class='ratios')
+    # the bookkeeping over a pool's life: the real WorkerInsights/TimeIt objects as an operation-sequence machine vs Mpire.Insights.run
+    alines, aimpl, ains = [], [], []
+    for _ in range(500 if chk.tier == 'quick' else 6000):
+        ops = insacc.gen_ops(rng)
+        alines.append('insacc ops=' + ','.join(ops))
+        line, ins = insacc.run_ops(ops)
+        aimpl.append(line)
+        ains.append((ops, ins))
+    for line, i, m, (ops, ins) in zip(alines, aimpl, drv.run(alines), ains):
+        chk.count('insights bookkeeping machine vs Mpire.Insights.run', key=line, nontrivial=line.count('T:') >= 3,
+                  sample={'line': line[:160], 'impl': i[:160]}, restarts='R:' in line, replaced='K:' in line, second_start=line.count('S:') > 1)
+        if i != m:
+            chk.mismatch('insights bookkeeping', {'line': line}, i, m)
+        if ins is not None:
+            last = max(k for k, o in enumerate(ops) if o.startswith('S:'))
+            n = int(ops[last].split(':')[1])
+            done = sum(1 for o in ops[last:] if o.startswith('T:') and int(o.split(':')[1]) < n)
+            if len(ins['n_completed_tasks']) != n or sum(ins['n_completed_tasks']) != done:
+                chk.violation('counts_sum_to_tasks_since_start', {'ops': ops}, ins['n_completed_tasks'], '%d entries summing to %d' % (n, done), input_class='bookkeeping')
+            if len(ins['top_5_max_task_args']) > 5 or len(ins['top_5_max_task_args']) != len(ins['top_5_max_task_durations']):
+                chk.violation('top5_shape', {'ops': ops}, ins['top_5_max_task_args'], '<= 5 entries, one argument string each', input_class='bookkeeping')
     scs = ins_scenarios(rng, 250 if chk.tier == 'quick' else 4000)
     run_scenarios(chk, 'whole calls with insights under DetSim', scs, {'C18'},
                   nontrivial=lambda sc, o: len(o.get('calls', [])) >= 2,
